@@ -6,11 +6,15 @@ import Driver.Ops
     with status 3; the caller resumes with the next line (same convention as the Rust harness). -/
 open Driver
 
-partial def waitFor (t : Task String) (limitMs : Nat) (waited : Nat) : IO (Option String) := do
+/-- poll with back-off: most requests finish within a millisecond (spin first), the limit only matters for run-aways -/
+partial def waitFor (t : Task String) (limitMs : Nat) (waited : Nat) (spins : Nat := 0) : IO (Option String) := do
   if (← IO.hasFinished t) then return some t.get
-  if waited ≥ limitMs then return none
-  IO.sleep 20
-  waitFor t limitMs (waited + 20)
+  if spins < 2000 then waitFor t limitMs waited (spins + 1)
+  else if waited ≥ limitMs then return none
+  else
+    let step := if waited < 20 then 1 else if waited < 200 then 5 else 20
+    IO.sleep step.toUInt32
+    waitFor t limitMs (waited + step) spins
 
 partial def loop (h : IO.FS.Stream) (out : IO.FS.Stream) (limitMs : Nat) : IO Unit := do
   let line ← h.getLine
